@@ -356,11 +356,13 @@ func stringIndexOps(root *wnode) []string {
 		var sites []string
 		switch {
 		case n.kind == kPacked && (pt == "Way" || pt == "Relation") && (n.field == 2 || n.field == 3) && len(n.elems) > 0:
-			sites = []string{"index"}
+			sites = []string{"index", "indexfirst"}
 		case n.kind == kPacked && pt == "Relation" && n.field == 8 && len(n.elems) > 0:
-			sites = []string{"index"}
+			sites = []string{"index", "indexfirst"}
 		case n.kind == kPacked && pt == "DenseInfo" && n.field == 5 && len(n.elems) > 0:
-			sites = []string{"sindex"}
+			// the last and the first entry of the column (the first one is the value a
+			// running sum or a "previous" variable starts from)
+			sites = []string{"sindex", "sindexfirst"}
 		case n.kind == kPacked && pt == "Dense" && n.field == 10 && len(n.elems) > 1 && n.elems[0] != 0:
 			sites = []string{"kvkey", "kvval"}
 		case n.kind == kVarint && pt == "Info" && n.field == 5:
@@ -441,6 +443,10 @@ func applyOp(root *wnode, pathOp string) {
 		n.drop = true
 	case strings.HasPrefix(op, "index-"):
 		setLast(uint64(indexValue(op[len("index-"):], tableLen)))
+	case strings.HasPrefix(op, "indexfirst-"):
+		n.elems[0] = uint64(indexValue(op[len("indexfirst-"):], tableLen))
+	case strings.HasPrefix(op, "sindexfirst-"):
+		n.elems[0] = zz(indexValue(op[len("sindexfirst-"):], tableLen))
 	case strings.HasPrefix(op, "sindex-"):
 		// delta coded sint32: make the running sum end at the target
 		var sum int64
